@@ -95,7 +95,7 @@ func sched(x *vsync.Exec) []int {
 }
 
 // explore: preemption-bounded DFS over thread choices.
-func explore(sc scenario, mode string, k int, capExec int64) *vlib.Outcome {
+func explore(sc scenario, mode string, k int, capExec int64, progress func()) *vlib.Outcome {
 	o := &vlib.Outcome{Nontrivial: true, Counters: map[string]int64{}}
 	serial := serialResults(sc, mode)
 	hot := map[string]bool{}
@@ -114,6 +114,9 @@ func explore(sc scenario, mode string, k int, capExec int64) *vlib.Outcome {
 		}
 		r := runOnce(sc, mode, prefix, hot)
 		execs++
+		if execs%500 == 0 {
+			progress() // heartbeat: one case explores up to millions of schedules
+		}
 		steps += int64(r.x.Steps)
 		nodes += int64(len(r.x.Choices) - len(prefix) + 1)
 		for f := range r.x.WrittenFields {
@@ -256,7 +259,7 @@ func run(t *vlib.T) {
 			for _, mode := range sc.modes {
 				sc, mode, k := sc, mode, k
 				t.Case(fmt.Sprintf("k%d/%s/%s", k, sc.name, mode), func() *vlib.Outcome {
-					return explore(sc, mode, k, capExec)
+					return explore(sc, mode, k, capExec, t.Progress)
 				})
 			}
 		}
